@@ -200,6 +200,7 @@ func runC32Special(r *vk.Run, sp c32special) (sig string, hang bool) {
 		wg.Add(1)
 		go func() {
 			defer wg.Done()
+			defer c32Recover(r, sp)
 			total := int32(sp.FailFirst + sp.Callers)
 			settle(func() bool { return p.exits.Load() >= total })
 			uCall.Store(clock.Add(1))
@@ -224,6 +225,7 @@ func runC32Special(r *vk.Run, sp c32special) (sig string, hang bool) {
 		wg.Add(1)
 		go func() {
 			defer wg.Done()
+			defer c32Recover(r, sp)
 			uCall.Store(clock.Add(1))
 			prompting.UnregisterPrompter(id)
 			uRet.Store(clock.Add(1))
